@@ -67,6 +67,7 @@ def generate(seed, tier):
         p_back=.3 if circ else 0, w_iserror=0, p_alias=.25, p_arrlit=.06,
         p_refop=0 if circ else sw.pick([0, 0, .1]),
         w_textfn=0 if circ else sw.pick([0, 0, 1.5]),
+        w_engfn=0 if circ else sw.pick([0, 0, .7]),
     )
     world = gen_world(rng, prof)
     if sw.chance(.35):
